@@ -16,7 +16,7 @@ ROOT = os.path.dirname(os.path.dirname(os.path.abspath(__file__)))
 SIM = os.path.join(ROOT, "sim")
 EVID = os.path.join(ROOT, "evidence")
 REPLAYS = os.path.join(ROOT, "replays")
-KNOWN = os.path.join(ROOT, "known_findings.jsonl")
+KNOWN = os.path.join(ROOT, "known_findings.txt")
 DEFAULT_SEED = 20261003
 WORKERS = int(os.environ.get("VERIF_WORKERS", "16"))
 GUARD_FLAGS = "--cfg rosu_pp_verif"
@@ -180,12 +180,21 @@ def isolate_anomaly(engine, res, tier, build_name="default", per_run_timeout=60,
 
 
 def load_known():
+    """Parses known_findings.txt; only `known:` lines can suppress a violation."""
     entries = []
     if os.path.exists(KNOWN):
         for line in open(KNOWN):
             line = line.strip()
-            if line and not line.startswith("#"):
-                entries.append(json.loads(line))
+            if line.startswith("known:"):
+                m = re.match(r"known:\s+property=(\S+)\s+key=(\S+)\s+::\s+(.*)", line)
+                if not m:
+                    raise HarnessError(f"malformed known-findings line: {line}")
+                entries.append({"status": "known", "property": m.group(1), "match": m.group(2), "what": m.group(3)})
+            elif line.startswith("fixed:"):
+                m = re.match(r"fixed:\s+property=(\S+)\s+(\S+)\s+(.*)", line)
+                if not m:
+                    raise HarnessError(f"malformed known-findings line: {line}")
+                entries.append({"status": "fixed", "property": m.group(1), "commit": m.group(2), "what": m.group(3)})
     return entries
 
 
@@ -322,14 +331,39 @@ def report(prop, new, known):
 
 # ------------------------------------------------------------------ generic seeded-search check
 
+SHIM = os.path.join(ROOT, "shim", "libverif_shim.so")
+
+
+def build_shim():
+    src = os.path.join(ROOT, "shim", "verif_shim.c")
+    if os.path.exists(SHIM) and os.path.getmtime(SHIM) >= os.path.getmtime(src):
+        return SHIM
+    r = subprocess.run(["clang", "-O2", "-shared", "-fPIC", "-o", SHIM, src], capture_output=True, text=True)
+    if r.returncode != 0:
+        raise HarnessError("cannot build shim: " + r.stderr[-2000:])
+    return SHIM
+
+
+def shim_env():
+    e = dict(os.environ)
+    e["LD_PRELOAD"] = build_shim()
+    return e
+
+
 SIM_CHECKS = {
-    # property: list of (engine, quick runs, thorough runs, build)
-    "C02": [("c02", 24000, 400000, "default")],
-    "C03": [("c03", 24000, 400000, "default")],
-    "C15": [("c15", 40000, 600000, "default")],
+    # property: list of dict(engine, quick runs, thorough runs, build, shim)
+    "C01": [dict(engine="c01", quick=30000, thorough=500000, build="default", shim=True)],
+    "C02": [dict(engine="c02", quick=24000, thorough=400000, build="default")],
+    "C03": [dict(engine="c03", quick=24000, thorough=400000, build="default")],
+    "C15": [dict(engine="c15", quick=40000, thorough=600000, build="default")],
 }
 
 RULES = {
+    "C01": "case = (pool of 1-3 maps incl. tie-heavy timing, 2-7 logical calls, history of 6-56 ops: calls repeated in "
+    "seeded order with fresh or reused builders, interleaved with environment events: new hash universe (fresh "
+    "thread = fresh RandomState keys from the getrandom shim), heap noise, allocator junk/poison reseed, clock jump). "
+    "Oracle: first-seen memo table per logical call + every pool map equals its pristine clone after every call. "
+    "Non-trivial = at least one environment event or reused builder; distinct = distinct op-kind sequence.",
     "C02": "case = (generated or real-window map, target mode, API flavour, Difficulty settings, schedule of "
     "next() calls interleaved with environment events: crash+restart, box/vec/swap moves, thread hop, "
     "step on another thread, interleaved unrelated calculation, early drop of the map). Oracle: value i == "
@@ -355,15 +389,21 @@ def run_sim_check(prop, tier, level="exploration", extra_cov=None):
     t0 = time.time()
     known_entries = load_known()
     all_sum, all_vio = [], []
-    builds = sorted({b for (_, _, _, b) in SIM_CHECKS[prop]})
+    builds = sorted({c["build"] for c in SIM_CHECKS[prop]})
     for b in builds:
         build(b)
-    for engine, q, t, b in SIM_CHECKS[prop]:
-        runs = q if tier == "quick" else t
+    for c in SIM_CHECKS[prop]:
+        engine, b = c["engine"], c["build"]
+        runs = c["quick"] if tier == "quick" else c["thorough"]
         runs = int(os.environ.get("VERIF_RUNS", runs))
-        sums, vios, anomalies = shard(engine, runs, tier, b)
+        env = shim_env() if c.get("shim") else None
+        sums, vios, anomalies = shard(engine, runs, tier, b, env=env)
         for an in anomalies:
-            vios.extend(isolate_anomaly(engine, an, tier, b))
+            vios.extend(isolate_anomaly(engine, an, tier, b, env=env))
+        for v in vios:
+            v["build"] = b
+            if c.get("shim"):
+                v["env"] = {"LD_PRELOAD": SHIM}
         all_sum.extend(sums)
         all_vio.extend(vios)
     new, known = triage(prop, all_vio, known_entries)
